@@ -65,6 +65,34 @@ def _remap_block(blk, loff, boff):
         t["targets"] = [[v, tg + boff] for v, tg in t["targets"]]
 
 
+def _rename_local(blk, old, new):
+    def pl(p):
+        if p["l"] == old:
+            p["l"] = new
+        for e in p["p"]:
+            if isinstance(e, dict) and e.get("idx") == old:
+                e["idx"] = new
+
+    def op(o):
+        if isinstance(o, dict) and isinstance(o.get("pl"), dict):
+            pl(o["pl"])
+    for st in blk["stmts"]:
+        pl(st["pl"])
+        if isinstance(st["rv"].get("pl"), dict):
+            pl(st["rv"]["pl"])
+        for o in st["rv"].get("ops") or []:
+            op(o)
+    t = blk["term"]
+    for k in ("dest", "pl"):
+        if isinstance(t.get(k), dict) and "l" in t[k]:
+            pl(t[k])
+    for k in ("discr", "cond"):
+        if isinstance(t.get(k), dict):
+            op(t[k])
+    for a in t.get("args") or []:
+        op(a)
+
+
 def _inline_site(caller, bi, callee):
     """Replace the call terminating block `bi` of `caller` by the blocks of `callee` (both raw records)."""
     call = caller["blocks"][bi]["term"]
@@ -80,8 +108,14 @@ def _inline_site(caller, bi, callee):
     def fix_const(op):
         if isinstance(op, dict) and op.get("k") == "const" and "::promoted[" in (op.get("text") or ""):
             op["text"] = re.sub(r"promoted\[(\d+)\]", lambda m: "promoted[%d]" % (int(m.group(1)) + poff), op["text"])
+    # the callee's return place becomes the call's destination itself when that is a plain local (`dest = Ok(x)` instead
+    # of `_0' = Ok(x); dest = move _0'`): rules that look for what is assigned to a Result keep seeing the aggregate
+    dest = call.get("dest")
+    direct = dest is not None and not dest["p"]
     for blk in new_blocks:
         _remap_block(blk, loff, boff)
+        if direct:
+            _rename_local(blk, loff, dest["l"])
         for st in blk["stmts"]:
             for op in st["rv"].get("ops") or []:
                 fix_const(op)
@@ -102,7 +136,7 @@ def _inline_site(caller, bi, callee):
     for blk in new_blocks:
         t = blk["term"]
         if t["k"] == "return":
-            if call.get("dest") is not None:
+            if call.get("dest") is not None and not direct:
                 blk["stmts"].append({"k": "assign", "line": line, "exp": False, "pl": copy.deepcopy(call["dest"]),
                                      "rv": {"k": "use", "ops": [{"k": "move", "pl": {"l": loff, "p": []}}]}})
             if call.get("target") is not None:
@@ -173,7 +207,51 @@ def apply(facts, known=None):
                 changed = True
         if not changed:
             break
+    _absorb(facts, {c for (c, _, _) in done}, {c: p for (c, p, _) in reversed(done)})
     return done
+
+
+def _absorb(facts, inlined, into):
+    """A helper whose every use was inlined has no behaviour of its own left: it is taken out of the analysed bodies (its
+    statements are attributed to the functions it was written for — what who-may-call rules want) and kept only in the
+    function-at-a-time view. A helper that is still called somewhere (cleanup block, recursion) or mentioned as a
+    function value stays."""
+    bodies = facts["bodies"]
+    absorbed = facts.setdefault("bodies_absorbed", {})
+    changed = True
+    while changed:
+        changed = False
+        for h in sorted(inlined):
+            if h not in bodies:
+                continue
+            used = False
+            for p, rec in bodies.items():
+                if p == h:
+                    continue
+                for blk in rec["blocks"]:
+                    t = blk["term"]
+                    if t["k"] == "call" and (t.get("resolved") == h or t.get("callee") == h):
+                        used = True
+                    for op in (t.get("args") or []) + [o for st in blk["stmts"] for o in (st["rv"].get("ops") or [])]:
+                        if isinstance(op, dict) and op.get("k") == "const" and op.get("fn") == h:
+                            used = True
+                    if used:
+                        break
+                if used:
+                    break
+            if not used:
+                absorbed[h] = bodies.pop(h)
+                # its closures are now constructed by the inlined copy of the aggregate statement in the caller
+                host = into.get(h)
+                while host in absorbed and into.get(host):
+                    host = into[host]
+                for p, rec in bodies.items():
+                    if rec.get("kind") == "closure":
+                        if rec.get("direct_parent") == h:
+                            rec["direct_parent"] = host
+                        if rec.get("parent") == h:
+                            rec["parent"] = host
+                changed = True
 
 
 def blocks_cleanup_only(rec, sites):
